@@ -51,7 +51,9 @@ func (u *memoryManagementUnit) getFromL3(addrs []int32) ([]int8, bool, bool) {
 				}
 			}
 
-			u.pendings = append(u.pendings, [2]int32{addr, addr + l3CacheLineSize + 1})
+			// Lines are aligned on their size: the line that is going to be fetched
+			base := addr - addr%l3CacheLineSize
+			u.pendings = append(u.pendings, [2]int32{base, base + l3CacheLineSize})
 			return nil, false, false
 		}
 		memory = append(memory, v)
